@@ -95,15 +95,19 @@ theorem syncLoop_ok (f : Bytes) (l : List Nat) (budget : Nat) (saved : Option Fr
           · exact ih _ _
       · exact ih _ _
 
-/-- `MPEGInfo(fileobj)` on every byte string: a value or HeaderNotFoundError("can't sync to MPEG frame") -/
-theorem parse_clean (f : Bytes) (e : PyErr) (h : parse f = .error e) : e = .mutagen := by
-  unfold parse parseFrom at h
+/-- `MPEGInfo(fileobj, offset)` on every byte string and from every offset: a value or
+HeaderNotFoundError("can't sync to MPEG frame") -/
+theorem parseFrom_clean (f : Bytes) (off : Nat) (e : PyErr) (h : parseFrom f off = .error e) : e = .mutagen := by
+  unfold parseFrom at h
   simp only [] at h
-  obtain ⟨r, hr⟩ := syncLoop_ok f (syncScan f (skipId3 f (f.length + 1) 0) (1024 * 1024)) 1500 none
+  obtain ⟨r, hr⟩ := syncLoop_ok f (syncScan f (skipId3 f (f.length + 1) off) (1024 * 1024)) 1500 none
   rw [hr] at h
   obtain ⟨fr, sk⟩ := r
   cases fr with
   | none => cases h; rfl
   | some x => cases h
+
+/-- `MPEGInfo(fileobj)` on every byte string -/
+theorem parse_clean (f : Bytes) (e : PyErr) (h : parse f = .error e) : e = .mutagen := parseFrom_clean f 0 e h
 
 end Mutagen.Info.Mp3
